@@ -515,8 +515,10 @@ func c13FailedOpen(c *explore.Ctx) {
 		explore.PinSeed(0)
 		unclean := base.Image.Clone()
 		unclean.SetBytes(explore.DBPath+"/lock", nil)
+		done := false
 		for n := 1; n < 400; n++ {
-			if !c.Mine() {
+			// (every worker draws the same sequence of Mine() answers: no early exit from this loop)
+			if mine := c.Mine(); !mine || done {
 				continue
 			}
 			if c.Expired() || c.NViolations() > 0 {
@@ -531,7 +533,7 @@ func c13FailedOpen(c *explore.Ctx) {
 			if err == nil {
 				_ = db.Close()
 				if img.FailAt > 0 && !injectedHit(img, n) {
-					break // the recovering Open makes fewer than n mutating calls: done
+					done = true // the recovering Open makes fewer than n mutating calls
 				}
 				continue
 			}
@@ -556,6 +558,38 @@ func c13FailedOpen(c *explore.Ctx) {
 					What: fmt.Sprintf("unclean directory %s/%s; an Open fails with an injected I/O error at its mutating file-system call #%d (%v); then: %s", bc[0], bc[1], n, err, msg), Size: n,
 					Replay: map[string]interface{}{"kind": "failopen13", "base": bc[0], "cfg": bc[1], "fault_at": n, "observed": msg}})
 				return
+			}
+		}
+	}
+}
+
+// c13FailedClose: a Close that fails (injected I/O error at each of its mutating file-system calls) has not
+// completed: whatever it leaves behind, the next process must see the acknowledged contents (i.e. the
+// unclean-shutdown marker may only disappear once everything the next Open trusts is in place).
+func c13FailedClose(c *explore.Ctx) {
+	for _, bc := range [][2]string{{"S2", "ROLL"}, {"CH", "BIGC"}, {"FL", "BIGC"}} {
+		base, err := explore.GetBase(bc[0], cfgByName(bc[1]), 0)
+		if err != nil {
+			c.HarnessError("%v", err)
+		}
+		explore.PinSeed(0)
+		memo := recMemo{}
+		for _, pre := range [][]explore.Op{{}, {{Kind: explore.Put, Key: base.Alpha[0]}}, {{Kind: explore.Delete, Key: base.Alpha[0]}, {Kind: explore.Put, Key: base.Alpha[len(base.Alpha)-1]}}} {
+			if !c.Mine() {
+				continue
+			}
+			for n := 1; n < 200; n++ {
+				if c.Expired() || c.NViolations() > 0 {
+					return
+				}
+				done, v := c04FaultCase(c, base, bc[0], bc[1], pre, explore.Op{Kind: explore.Close}, n, memo)
+				if v != nil {
+					c.Violation(*v)
+					return
+				}
+				if done {
+					break
+				}
 			}
 		}
 	}
@@ -604,6 +638,10 @@ func runC13(c *explore.Ctx) {
 	}
 	rec("O")
 	c13FailedOpen(c)
+	if c.Expired() || c.NViolations() > 0 {
+		return
+	}
+	c13FailedClose(c)
 	if c.Expired() || c.NViolations() > 0 {
 		return
 	}
